@@ -1293,6 +1293,8 @@ class Interp:
         conts = self.cont_stack.pop()
         loop.gdepth = gdepth
         loop.pre = pre
+        # values of the assigned names at the end of an iteration that falls through (not carried ones included)
+        loop.end_env = {n: self.env.get(n) for n in assigned}
         loop.phi = dict(carried)
         # (extra guards, environment, node) of every path that leaves the loop through `break`
         loop.breaks = [(g[gdepth:], envb, nb) for g, envb, nb in self.break_stack.pop()]
